@@ -279,11 +279,41 @@ def run_shard(cfg):
             counters.inc("kdf_calls")
             counters.inc("fresh_salt_checked")
             ra, rb = ref_record(h), ref_record(h2)
-            if h == h2 or ra[3][:16] == rb[3][:16]:
+            if h == h2 or ra[3][:Auth.SALT_LENGTH] == rb[3][:Auth.SALT_LENGTH]:
                 viol("salt-reused", "two hashes of the same password share the salt / are equal", {"p": short(p), "h": h, "h2": h2})
         if len(samples) < 2:
             samples.append({"kind": "real-cost", "password": short(p), "hash": h,
                             "neighbours": [(k, short(q)) for k, q in nb[:2]]})
+    # ---- the documented class attributes SALT_LENGTH / DIGEST_LENGTH are configuration: records made under one setting are
+    #      self-describing and verify under any other (one real-cost case per shard)
+    configs = [(8, 32), (32, 32), (16, 64), (24, 16), (1, 1), (33, 47)]
+    sl0, dl0 = Auth.SALT_LENGTH, Auth.DIGEST_LENGTH
+    try:
+        sl, dl = configs[(cfg["shard"] + cfg["seed"]) % len(configs)]
+        Auth.SALT_LENGTH, Auth.DIGEST_LENGTH = sl, dl
+        p = pws[(cfg["shard"] * 7 + 3) % len(pws)]
+        q = p + b"\x00" if len(p) < 64 else p[:-1]
+        try:
+            h = checked_hash(p)
+            counters.inc("configurations_tried")
+            res_same = Auth.verify_password(p, h)
+            Auth.SALT_LENGTH, Auth.DIGEST_LENGTH = sl0, dl0
+            res_default = Auth.verify_password(p, h)
+            res_wrong = Auth.verify_password(q, h)
+            counters.inc("kdf_calls", 4)
+            if res_same is not True or res_default is not True:
+                viol("right-password-rejected", "with SALT_LENGTH=%d DIGEST_LENGTH=%d: verify(p, hash(p)) = %r (same setting), %r (default setting again)" % (
+                    sl, dl, res_same, res_default), {"salt_length": sl, "digest_length": dl})
+            elif res_wrong is not False:
+                viol("wrong-password-accepted", "with SALT_LENGTH=%d DIGEST_LENGTH=%d: verify(q, hash(p)) = %r" % (sl, dl, res_wrong), {"salt_length": sl, "digest_length": dl})
+            else:
+                counters.inc("configurations_ok")
+        except PostBroken as e:
+            viol("hash-format", "with SALT_LENGTH=%d DIGEST_LENGTH=%d hash_password returned a record that does not describe itself: %s" % (sl, dl, e), {"salt_length": sl, "digest_length": dl})
+        except Exception as e:
+            viol("right-password-raises", "with SALT_LENGTH=%d DIGEST_LENGTH=%d: %r" % (sl, dl, e), {"salt_length": sl, "digest_length": dl})
+    finally:
+        Auth.SALT_LENGTH, Auth.DIGEST_LENGTH = sl0, dl0
     # non-bytes / non-str arguments
     for bad_pw, bad_h in [("str-password", None), (None, None), (b"pw", b"scrypt:1:QAAQARAY:AAAA"), (b"pw", None), (b"pw", 5)]:
         h_arg = bad_h if bad_h is not None or bad_pw == b"pw" else "scrypt:1:QAAQARAY:AAAA"
@@ -396,7 +426,7 @@ def finish(tier, seed, results):
     m = merge(results)
     inconclusive = []
     need(m["counters"], ["right_password_checked", "wrong_password_checked", "fresh_salt_checked",
-                         "corruptions", "malformed_raised", "control_true", "control_false", "kdf_calls"], inconclusive)
+                         "corruptions", "malformed_raised", "control_true", "control_false", "kdf_calls", "configurations_ok"], inconclusive)
     cov = {
         "evaluations": m["evaluations"],
         "distinct_nontrivial": m["distinct_nontrivial"],
